@@ -320,6 +320,26 @@ class Gen:
                         src = 'int("%s")' % txt if base is None else 'int("%s", %d)' % (txt, base)
                         self.add("parse", src, txt=codes(txt), base=10 if base is None else base)
 
+    ROUTES = [(-3, "((1 << 40) | (-3))"), (-1, "((-(1 << 40)) | ((1 << 40) - 1))"), (-7, "((-(1 << 40)) | (-7))"),
+              (5, "(((1 << 70) + 5) & 255)"), (5, "(((1 << 70) + 5) ^ (1 << 70))"), (5, "((5 << 70) >> 70)"),
+              (-3, "((1 << 70) - (1 << 70) - 3)"), (1, "((1 << 70) // (1 << 70))"), (3, "((1 << 70) % ((1 << 70) - 3))"),
+              (-1, "((-(1 << 70)) // (1 << 70))"), (-1, "(~(1 << 70) + (1 << 70))"), (0, "((1 << 70) * 0)"), (0, "((1 << 70) & 1)"),
+              (-(1 << 31), "((-(1 << 62)) // (1 << 31))"), ((1 << 31) - 1, "(((1 << 64) >> 33) - 1)"), (2, "((1 << 71) // (1 << 70))"),
+              (3, 'int("3")'), (3, "int(3.0)"), (2, "(-(-(1 << 70)) - (1 << 70) + 2)"), (1, "((1 << 70) ** 0)" if False else "(((1 << 70) | 1) & 1)"),
+              ((1 << 62), "((1 << 124) >> 62)"), (-(1 << 63), "((-(1 << 126)) >> 63)"), ((1 << 63) - 1, "((1 << 63) - 1)"), (7, "(((1 << 64) + 7) % (1 << 64))")]
+
+    def routes(self):
+        """small integers reached through big intermediate values behave exactly like their literals in every context that
+        looks at an integer's representation (index, repetition, shift count, range, hash / dict key, conversions)"""
+        ctx = "[X, X + 0, X * 1, -X, X // 1, X % 1000003, X & -1, X | 0, X ^ 0, ~X, X << 1, X >> 1, abs(X), str(X), repr(X), \"%d|%x\" % (X, X), " \
+              "float(X), int(float(X)) if -(1 << 53) < X and X < (1 << 53) else 0, X == X + 0, X < X + 1, {X: 1}.get(X + 0), {X + 0: 1}.get(X), X in {X + 0: 1}, len(set([X, X + 0])), " \
+              "(X,) == (X + 0,), [10, 20, 30, 40, 50, 60, 70, 80][X] if -8 <= X and X < 8 else 0, \"ab\" * X if X < 6 else 0, [1] * X if X < 6 else 0, " \
+              "(1 << X) if 0 <= X and X < 80 else 0, (1 << 90) >> X if 0 <= X and X < 80 else 0, list(range(X)) if X < 9 else len(range(X)), " \
+              "list(range(0, 20, X)) if X > 0 and X < 30 else 0, range(100)[X] if -100 <= X and X < 100 else 0, \"abcdefgh\"[X:] if True else 0, bool(X), max(X, 0), sorted([X, 0, X + 0])]"
+        for n, rt in self.ROUTES:
+            src = "(lambda X: %s)(%s), (lambda X: %s)(%s)" % (ctx, rt, ctx, isrc(n))
+            self.add("route", "(" + src + ")", x=big(n))
+
     def formatting(self):
         rnd = self.rnd
         forms = [("str", "str(%s)"), ("repr", "repr(%s)"), ("d", '"%%d" %% %s'), ("s", '"%%s" %% %s'), ("x", '"%%x" %% %s'),
@@ -595,7 +615,7 @@ class Gen:
             self.add("repeat", src, ty=ty, s=s, n=big(n))
 
     def all(self):
-        for g in (self.arith, self.compare, self.literals, self.parsing, self.parsing_boundaries, self.formatting, self.conversions,
+        for g in (self.arith, self.compare, self.literals, self.parsing, self.parsing_boundaries, self.routes, self.formatting, self.conversions,
                   self.mathfns, self.mixed, self.dict_keys, self.ranges, self.enumerate_, self.repeats):
             g()
         self.fixed()
